@@ -316,6 +316,30 @@ fn raw_inputs(rng: &mut Rng, n_random: usize) -> Vec<Hostile> {
         b.extend(rng.bytes(200));
         out.push(Hostile { class: format!("dictionary_size={}", name), bytes: b, declared: 0 });
     }
+    // The same lies on files that are themselves larger than 1 MiB (readers that treat the
+    // first MiB differently from the rest), and a genuinely large header cut past its first MiB.
+    for (name, v) in [("1MiB+1000", (1u64 << 20) + 1000), ("filelen", 0), ("1.5x", 1), ("4MiB", 4 << 20), ("2^31", 1 << 31), ("2^40", 1 << 40), ("u64max-72", u64::MAX - 72)] {
+        let len = rng.urange((1 << 20) + 200_000, (2 << 20) + 500_000);
+        let v = match v {
+            0 => len as u64,
+            1 => len as u64 * 3 / 2,
+            x => x,
+        };
+        let mut b = codec::MAGIC.to_vec();
+        b.extend_from_slice(&v.to_le_bytes());
+        b.extend(rng.bytes(len));
+        out.push(Hostile { class: format!("big_file/dictionary_size={}", name), declared: b.len() as u64, bytes: b });
+    }
+    {
+        let (_src, mut dict, body, _valid) = base_archive(rng, (0, 0), 0);
+        dict.metadata = vec![("blob".to_string(), rng.bytes((2 << 20) + 12345))];
+        let h = assemble("big_header", &dict, None, &body);
+        let hl = h.bytes.len() - body.len();
+        for (name, cut) in [("header_end-1", hl - 1), ("header_end-64", hl - 64), ("header_end-65", hl - 65), ("header_end-1000", hl - 1000), ("1MiB+15", (1 << 20) + 15), ("1.5MiB", 3 << 19), ("1MiB-1", (1 << 20) - 1)] {
+            out.push(Hostile { class: format!("big_header/truncated@{}", name), bytes: h.bytes[..cut].to_vec(), declared: h.bytes.len() as u64 });
+        }
+        out.push(Hostile { class: "big_header/intact".to_string(), declared: h.bytes.len() as u64, bytes: h.bytes });
+    }
     out
 }
 
@@ -467,7 +491,7 @@ fn process_engine(rep: &Report, seed: u64, tier: Tier) {
                 rep.violation(
                     &sig,
                     json!({"surface": surf.name(), "class": h.class, "failure": kind, "archive_hex": if h.bytes.len() <= 1500 { hex(&h.bytes) } else { format!("({} bytes)", h.bytes.len()) }}),
-                    json!({"engine": "process", "surface": surf.name(), "class": h.class, "archive_hex": if h.bytes.len() <= 200_000 { hex(&h.bytes) } else { String::new() }, "declared": h.declared}),
+                    json!({"engine": "process", "surface": surf.name(), "class": h.class, "archive_hex": if h.bytes.len() <= 200_000 { hex(&h.bytes) } else { String::new() }, "declared": h.declared, "seed": seed, "thorough": tier == Tier::Thorough}),
                 );
             }
         }
@@ -866,7 +890,22 @@ pub fn replay(v: &Value) -> i32 {
         return 0;
     }
     if engine == "process" {
-        let bytes = crate::util::unhex(r["archive_hex"].as_str().unwrap_or(""));
+        let mut bytes = crate::util::unhex(r["archive_hex"].as_str().unwrap_or(""));
+        if bytes.is_empty() && r["seed"].is_u64() {
+            // too large to be stored in the replay file: regenerate the catalogue of that run
+            let mut rng = Rng::new(r["seed"].as_u64().unwrap()).fork(0x1500);
+            let thorough = r["thorough"].as_bool().unwrap_or(false);
+            let mut inputs = field_mutations(&mut rng);
+            if thorough {
+                for _ in 0..3 {
+                    inputs.extend(field_mutations(&mut rng));
+                }
+            }
+            inputs.extend(raw_inputs(&mut rng, if thorough { 6000 } else { 600 }));
+            if let Some(h) = inputs.into_iter().find(|h| h.class == r["class"].as_str().unwrap_or("")) {
+                bytes = h.bytes;
+            }
+        }
         let surf = match r["surface"].as_str().unwrap_or("") {
             "info" => Surface::Info,
             "clone" => Surface::Clone,
